@@ -32,16 +32,21 @@ package xslices
 
 //@ func Fill
 //@   props C19
+//@   noalloc
 //@   modifies elems(s)
 //@   loop 0: invariant forall t int {s[t]} :: 0 <= t && t < idx0 ==> s[t] == x
+//@   loop 0: invariant forall k int {row(s)[k]} :: off(s) <= k && k < off(s) + idx0 ==> row(s)[k] == x
 //@   loop 0: invariant forall k int {row(s)[k]} :: k < off(s) || k >= off(s) + len(s) ==> row(s)[k] == old(row(s)[k])
 //@   ensures forall t int {s[t]} :: 0 <= t && t < len(s) ==> s[t] == x
+//@   ensures forall k int {row(s)[k]} :: off(s) <= k && k < off(s) + len(s) ==> row(s)[k] == x
 //@   ensures forall k int {row(s)[k]} :: k < off(s) || k >= off(s) + len(s) ==> row(s)[k] == old(row(s)[k])
 
 //@ func Clear
 //@   props C19
+//@   noalloc
 //@   modifies elems(s)
 //@   ensures forall t int {s[t]} :: 0 <= t && t < len(s) ==> s[t] == zero(T)
+//@   ensures forall k int {row(s)[k]} :: off(s) <= k && k < off(s) + len(s) ==> row(s)[k] == zero(T)
 //@   ensures forall k int {row(s)[k]} :: k < off(s) || k >= off(s) + len(s) ==> row(s)[k] == old(row(s)[k])
 
 //@ func LastIndexFunc
